@@ -6,7 +6,12 @@ VERIF = os.path.dirname(os.path.dirname(os.path.abspath(__file__)))
 REPO = os.environ.get("VERIF_REPO", "/repo")
 CACHE = os.path.join(VERIF, ".cache")
 COQ = os.path.join(VERIF, "coq")
-WORK = os.path.join(CACHE, "work")
+# Self-test mode (tools/seedtest.py): VERIF_REPO points at a scratch copy of the repository; the harness is then
+# built from a generated copy of harness/ whose path dependencies point there, with its own target, work and
+# evidence directories, so that nothing registered in MANIFEST.json is disturbed.
+ALT = REPO != "/repo"
+WORK = os.path.join(CACHE, "work-alt" if ALT else "work")
+EVIDENCE_DIR = os.path.join(CACHE, "evidence-alt") if ALT else os.path.join(VERIF, "evidence")
 GUARD = "rbx_dom_verif"
 
 ALLOWED_AXIOMS = {
@@ -190,19 +195,42 @@ def print_assumptions(pid, names):
 
 # ---------------------------------------------------------------- harness / model builds
 
+def target_dir():
+    return os.path.join(CACHE, "target-alt" if ALT else "target")
+
+
 def harness_bin(profile="debug"):
-    return os.path.join(CACHE, "target", profile, "rbxverif")
+    return os.path.join(target_dir(), profile, "rbxverif")
+
+
+def harness_dir():
+    h = os.path.join(VERIF, "harness")
+    if not ALT:
+        return h
+    alt = os.path.join(CACHE, "harness-alt")
+    os.makedirs(os.path.join(alt, "src"), exist_ok=True)
+    for f in os.listdir(os.path.join(h, "src")):
+        src, dst = os.path.join(h, "src", f), os.path.join(alt, "src", f)
+        text = open(src).read()
+        if not os.path.exists(dst) or open(dst).read() != text:
+            open(dst, "w").write(text)
+    toml = open(os.path.join(h, "Cargo.toml")).read().replace('"/repo/', '"%s/' % REPO)
+    if not os.path.exists(os.path.join(alt, "Cargo.toml")) or open(os.path.join(alt, "Cargo.toml")).read() != toml:
+        open(os.path.join(alt, "Cargo.toml"), "w").write(toml)
+    os.makedirs(os.path.join(alt, ".cargo"), exist_ok=True)
+    open(os.path.join(alt, ".cargo", "config.toml"), "w").write("[net]\noffline = true\n")
+    return alt
 
 
 def build_harness(profile="debug", timeout=1500):
     with Lock("cargo"):
-        h = os.path.join(VERIF, "harness")
+        h = harness_dir()
         lock_src = os.path.join(REPO, "Cargo.lock")
         lock_dst = os.path.join(h, "Cargo.lock")
         if not os.path.exists(lock_dst):
             open(lock_dst, "w").write(open(lock_src).read())
         cmd = ["cargo", "build", "--offline"] + (["--release"] if profile == "release" else [])
-        env = {"RUSTFLAGS": "--cfg " + GUARD + " -Awarnings", "CARGO_TARGET_DIR": os.path.join(CACHE, "target")}
+        env = {"RUSTFLAGS": "--cfg " + GUARD + " -Awarnings", "CARGO_TARGET_DIR": target_dir()}
         rc, out, dt = run(cmd, cwd=h, timeout=timeout, env=env)
         if rc != 0 and "Cargo.lock" in out:
             open(lock_dst, "w").write(open(lock_src).read())
@@ -221,8 +249,12 @@ def build_model(timeout=600):
 
 
 def model_vos():
-    """the .vo files the extraction needs: the dependency closure of Extract/Extract.v"""
-    deps = [f for f in coq_deps("Extract/Extract.v") if not f.startswith("Extract/")]
+    """the .vo files the extraction needs: the dependency closure of every Extract/*.v (Extract.v -> model.ml,
+    ExtractDb.v -> dbmodel.ml)"""
+    deps = []
+    for x in sorted(os.listdir(os.path.join(COQ, "Extract"))):
+        if x.endswith(".v"):
+            deps += [f for f in coq_deps("Extract/" + x) if not f.startswith("Extract/") and f not in deps]
     return [f[:-2] + ".vo" for f in deps]
 
 
@@ -282,7 +314,7 @@ def known_keys(pid):
 # ---------------------------------------------------------------- replay + evidence
 
 def write_replay(pid, kind, what, body_lines, broken=None):
-    d = os.path.join(VERIF, "evidence", "replays")
+    d = os.path.join(EVIDENCE_DIR, "replays")
     os.makedirs(d, exist_ok=True)
     text = "\n".join(body_lines)
     h = hashlib.sha1((kind + what + text).encode()).hexdigest()[:12]
@@ -312,7 +344,7 @@ def read_replay(path):
 
 
 def write_evidence(pid, tier, seed, coverage, assumptions, wall, violations):
-    d = os.path.join(VERIF, "evidence")
+    d = EVIDENCE_DIR
     os.makedirs(d, exist_ok=True)
     ev = {"property_id": pid, "tier": tier, "seed": seed, "level": "proof", "coverage": coverage,
           "assumptions": assumptions, "wall_s": round(wall, 2), "violations": violations}
